@@ -186,6 +186,24 @@ def build_harness(name, variant, sources, extra_cflags=(), extra_ld=(), link_lib
         lock.close()
 
 
+def build_vgomp_selftest():
+    """engine/vgomp/selftest.c compiled with -fopenmp, linked WITHOUT libgomp against vgomp.o."""
+    d = build_variant("vgomp-O2")
+    src = os.path.join(VERIF, "engine/vgomp/selftest.c")
+    h = hashlib.sha256(open(src, "rb").read() + open(os.path.join(VERIF, "engine/explore/explore.h"), "rb").read()).hexdigest()[:12]
+    exe = os.path.join(d, "vgselftest-" + h)
+    if os.path.exists(exe):
+        return exe
+    o = exe + ".o"
+    rc, out = sh(["gcc", "-std=gnu11", "-O1", "-g", "-fopenmp", "-I" + os.path.join(VERIF, "engine"), "-c", src, "-o", o])
+    if rc:
+        raise BuildError(out)
+    rc, out = sh(["gcc", o, os.path.join(d, "vgomp.o"), "-lpthread", "-o", exe])
+    if rc:
+        raise BuildError(out)
+    return exe
+
+
 if __name__ == "__main__":
     for v in sys.argv[1:] or ["serial-asan"]:
         print(v, build_variant(v))
